@@ -190,7 +190,7 @@ def check_err(run: Run, prog: Program) -> None:
             if handler is None:
                 key = m.name
                 is_terminal = any(k == key for k, _ in TERMINAL) and (
-                    (m.name == "_fetch_next" and _under_test(parents, call, "self._fallback is None"))
+                    (m.name == "_fetch_next" and _only_without_fallback(prog, m, call))
                     or (m.name == "fetch_next_with_fallback" and in_handler))
                 if is_terminal:
                     terminal_used.add(key)
@@ -213,28 +213,17 @@ def check_err(run: Run, prog: Program) -> None:
         raise AnalysisError(f"C19.ERR: only {n} receive() sites found in MetricFetcher")
 
 
-def _under_test(parents: dict[ast.AST, ast.AST], node: ast.AST, test_text: str) -> bool:
-    cur = node
-    while cur in parents:
-        par = parents[cur]
-        if isinstance(par, ast.If) and canon(par.test) == canon(ast.parse(test_text, mode="eval").body) and any(
-                cur is s or any(cur is x for x in ast.walk(s)) for s in par.body):
-            return True
-        cur = par
-    return False
+def _only_without_fallback(prog: Program, m: Any, call: ast.Call) -> bool:
+    """The call is executed only when no fallback is configured (whatever the spelling of that test)."""
+    fl = Flow(prog, m)
+    _is_fb, _aw, scenario, _recv = _fallback_model(fl)
+    nid = fl.node_of(call)
+    return fl.cfg.path(fl.cfg.entry, [nid], edge_ok=pruned(fl.cfg, scenario(configured=True), normal_only=False)) is None \
+        and fl.cfg.path(fl.cfg.entry, [nid], edge_ok=pruned(fl.cfg, scenario(configured=False), normal_only=False)) is not None
 
 
-def check_lazy(run: Run, prog: Program) -> None:
-    """Decided per scenario on the CFG of _fetch_next (private helpers spliced in): the conditions
-    `self._fallback is None`, `self._fallback.is_running` and `self._is_value_valid(<received>.value)`
-    are the atoms; whatever their spelling (negated, named by a local, early return or else-branch),
-    a scenario cuts the branches it cannot take."""
-    raw = prog.func(f"{MF}._fetch_next")
-    run.analysed(raw.qual)
-    fl = Flow(prog, spliced(prog, raw))
-    cfg = fl.cfg
-    normal = lambda a, b, lab: not lab.startswith("exc:")  # noqa: E731
-
+def _fallback_model(fl: Flow) -> tuple[Any, Any, Any, list[tuple[int, ast.Call]]]:
+    """Atoms of MetricFetcher._fetch_next: is a fallback configured / running, is the received primary valid."""
     def is_fb(e: ast.AST, nid: int | None) -> bool:
         o = fl.origin(e, nid)
         return bool(o) and all(q.kind == "expr" and u(q.node) == "self._fallback" for q in o)
@@ -242,18 +231,7 @@ def check_lazy(run: Run, prog: Program) -> None:
     def awaited(c: ast.Call) -> bool:
         return isinstance(fl._parent.get(id(c)), ast.Await)
 
-    starts = [nid for nid, c in fl.calls(lambda c: isinstance(c.func, ast.Attribute) and c.func.attr == "start")
-              if is_fb(c.func.value, nid)]  # type: ignore[union-attr]
-    if len(starts) != 1:
-        run.violation("C19.LAZY", raw.qual, "self._fallback.start()", f"expected one start site, found {len(starts)}",
-                      node=raw.node, file=raw.file)
-        return
-    st = starts[0]
-    sync = [nid for nid, c in fl.calls(lambda c: method_call(c, "self", "fetch_next_with_fallback"))
-            if awaited(c) and len(c.args) + len(c.keywords) == 1 and is_fb((c.args + [k.value for k in c.keywords])[0], nid)]
     recv = [(nid, c) for nid, c in fl.calls(lambda c: method_call(c, "self._stream", "receive")) if awaited(c)]
-    running_reads = [n.id for n in cfg.nodes if n.ast is not None and n.id in fl.live and any(
-        isinstance(x, ast.Attribute) and x.attr == "is_running" for part in own_parts(n) for x in ast.walk(part))]
 
     def scenario(**assign: bool) -> Any:
         def atom(e: ast.AST, nid: int) -> bool | None:
@@ -273,6 +251,33 @@ def check_lazy(run: Run, prog: Program) -> None:
                     return assign.get("valid")
             return None
         return lifted(fl, atom)
+
+    return is_fb, awaited, scenario, recv
+
+
+def check_lazy(run: Run, prog: Program) -> None:
+    """Decided per scenario on the CFG of _fetch_next (private helpers spliced in): the conditions
+    `self._fallback is None`, `self._fallback.is_running` and `self._is_value_valid(<received>.value)`
+    are the atoms; whatever their spelling (negated, named by a local, early return or else-branch),
+    a scenario cuts the branches it cannot take."""
+    raw = prog.func(f"{MF}._fetch_next")
+    run.analysed(raw.qual)
+    fl = Flow(prog, spliced(prog, raw))
+    cfg = fl.cfg
+    normal = lambda a, b, lab: not lab.startswith("exc:")  # noqa: E731
+
+    is_fb, awaited, scenario, recv = _fallback_model(fl)
+    starts = [nid for nid, c in fl.calls(lambda c: isinstance(c.func, ast.Attribute) and c.func.attr == "start")
+              if is_fb(c.func.value, nid)]  # type: ignore[union-attr]
+    if len(starts) != 1:
+        run.violation("C19.LAZY", raw.qual, "self._fallback.start()", f"expected one start site, found {len(starts)}",
+                      node=raw.node, file=raw.file)
+        return
+    st = starts[0]
+    sync = [nid for nid, c in fl.calls(lambda c: method_call(c, "self", "fetch_next_with_fallback"))
+            if awaited(c) and len(c.args) + len(c.keywords) == 1 and is_fb((c.args + [k.value for k in c.keywords])[0], nid)]
+    running_reads = [n.id for n in cfg.nodes if n.ast is not None and n.id in fl.live and any(
+        isinstance(x, ast.Attribute) and x.attr == "is_running" for part in own_parts(n) for x in ast.walk(part))]
 
     # --- running: never (re)started, always the synchronised fetch
     run_e = pruned(cfg, scenario(configured=True, running=True), normal_only=False)
@@ -491,7 +496,8 @@ def build_controls(prog: Program) -> list[tuple[str, str, str, str, str]]:
         add("validity test inverted", STEPS, stmt_patch(fw, c, lambda t, txt=txt: t.replace(txt, f"(not {txt})", 1)), "C19.SEL")
     fn = prog.func(f"{MF}._fetch_next")
     for s_ in fn.node.body:
-        if isinstance(s_, ast.If) and "is_running" in u(s_.test) and not s_.orelse:
+        if isinstance(s_, ast.If) and not s_.orelse and any(
+                isinstance(x, ast.Call) and method_call(x, "self", "fetch_next_with_fallback") for b in s_.body for x in ast.walk(b)):
             add("fallback restarted every round", STEPS, stmt_patch(fn, s_, lambda t: ""), "C19.LAZY")
             break
     for c in find_calls(fn.node, lambda c: method_call(c, "self", "_is_value_valid") and len(c.args) == 1)[:1]:
